@@ -323,6 +323,13 @@ def solve(res, conds, timeout_ms):
     res['solver_s'] = res.get('solver_s', 0.0) + time.time() - t
     if r == z3.unknown:
         raise Inconclusive('solver timeout/unknown')
+    b = dict(common.CROSS)
+    try:
+        common.cross_check(s, r)
+    finally:
+        cr = res.setdefault('cross', {})
+        for k_ in b:
+            cr[k_] = cr.get(k_, 0) + common.CROSS[k_] - b[k_]
     if r == z3.sat:
         return s.model()
     return None
@@ -382,6 +389,7 @@ def check_memarg_kernels(ctx, report, timeout_ms):
             r = sol.check()
             if r == z3.unknown:
                 raise Inconclusive('solver timeout')
+            common.cross_check(sol, r)
             if r == z3.sat:
                 bad = 'counterexample %s' % sol.model()
                 break
@@ -433,6 +441,8 @@ def _work_idx(i):
 
 
 def run(tier, seed, only=None):
+    import os as _os
+    _os.environ.setdefault('VERIF_CROSS', '1')        # every obligation-level query of this check is re-decided by cvc5
     import multiprocessing as mp
     import random
     report = common.Report('C03', tier, seed)
@@ -458,6 +468,8 @@ def run(tier, seed, only=None):
         ob.detail = r.get('detail') or ('%d paths, %d queries' % (r.get('paths', 0), r.get('queries', 0)))
         report.queries += r.get('queries', 0)
         report.solver_s += r.get('solver_s', 0.0)
+        for k_, v_ in (r.get('cross') or {}).items():
+            common.CROSS[k_] += v_
         for k in agg:
             agg[k] += r['_tot'][k]
         for k, v in r['_used'].items():
